@@ -19,9 +19,10 @@ Check2 ==
 cVals == [names |-> {N(<<"a">>), N(<<"B">>)}, anames |-> {N(<<"x">>), N(<<"k", "-", "x">>)},
           avals |-> {<<"<", "&", ">">>, <<"\"", "'">>, <<" ", "7", " ">>, <<"~", "'">>, BigNum},
           texts |-> {<<"<", "&", ">">>, <<"\"", "'">>, <<" ", "v", "\t">>, <<"7">>, <<"~", "&", "\n", "~">>, <<"\n">>}, maxattrs |-> 1, comments |-> FALSE]
-\* numerals beyond int64, the long spelling of negative infinity (both under the cast flag), tab and newline inside an attribute value
+\* numerals beyond int64, the long spelling of negative infinity, a numeral whose float64 prints longer than it reads (all under the cast flag),
+\* TEXT that spells an entity reference (T&amp;T as character data: written &amp;amp; in a document), tab and newline inside an attribute value
 cVals2 == [names |-> {N(<<"a">>)}, anames |-> {N(<<"x">>)}, avals |-> {<<"a", "\t", "\n", "b">>, <<"7">>},
-           texts |-> {Big19, <<"-", "I", "n", "f", "i", "n", "i", "t", "y">>, <<"7">>, <<"a", "]", "]", ">", "1">>, <<" ", " ">>}, maxattrs |-> 1, comments |-> FALSE]     \* (a run of blanks: a value under keep-spaces; ]]> may not stand in character data unescaped)
+           texts |-> {Big19, <<"-", "I", "n", "f", "i", "n", "i", "t", "y">>, <<"7">>, <<"a", "]", "]", ">", "1">>, <<" ", " ">>, Neg17, <<"T", "&", "a", "m", "p", ";", "T">>}, maxattrs |-> 1, comments |-> FALSE]     \* (a run of blanks: a value under keep-spaces; ]]> may not stand in character data unescaped)
 \* values with exactly ONE kind of special character each (an escaping routine that looks for "any special" first)
 cVals1 == [names |-> {N(<<"a">>)}, anames |-> {N(<<"x">>), N(<<"y">>)},
            avals |-> {<<"\"">>, <<"'">>, <<"<">>, <<">">>, <<"&">>, <<"v">>},
